@@ -23,7 +23,9 @@ ASSUMPTIONS = ["orientation of a row = Rz(psi).Rx(theta).Rz(phi) (DESIGN section
                "z-mirror conjugate of R is M.R.M with M = diag(1,1,-1)"]
 
 CLASSES = ["one_row_n4", "odd_index", "random", "half_ties", "gimbal", "wide_angles", "negative_positions", "n1", "multi_tomo_flip", "single_dim_flip",
-           "compose_shift", "compose_rot", "flip_twice", "update_only"]
+           "compose_shift", "compose_rot", "flip_twice", "update_only", "big_adjacent_tomos", "block_sizes"]
+# particle counts at which blocked / batched rewrites go wrong (2**k - 1, 2**k, 2**k + 1); the row-wise cryoCAT code needs ~1.5 ms per row
+BLOCK_N = [63, 64, 65, 127, 129, 257, 513, 1025, 2049, 4097]
 OTHER = [c for c in gens.COLS if c not in ("x", "y", "z", "shift_x", "shift_y", "shift_z", "phi", "theta", "psi")]
 M = np.diag([1.0, 1.0, -1.0])
 
@@ -218,19 +220,31 @@ def gen(ctx, i, cls):
     n = int(rng.integers(1, 40)) if ctx.tier == "quick" else int(rng.integers(1, 200))
     if cls == "n1":
         n = 1
+    if cls == "block_sizes":
+        pool_n = BLOCK_N + ([8193] if ctx.tier == "thorough" else [])
+        n = pool_n[(i // len(CLASSES)) % len(pool_n)]
     ori = {"gimbal": "gimbal", "wide_angles": "wide"}.get(cls, "mixed")
-    ntomo = int(rng.integers(2, 5)) if cls == "multi_tomo_flip" else int(rng.integers(1, 4))
+    ntomo = int(rng.integers(2, 5)) if cls in ("multi_tomo_flip", "big_adjacent_tomos") else int(rng.integers(1, 4))
     if cls == "one_row_n4":
         ntomo = 1
     df = gens.motl_table(rng, n, tomos=ntomo, ori=ori, signed=(cls == "negative_positions" or rng.random() < 0.3))
     if cls == "half_ties" or rng.random() < 0.25:
         base = np.round(df[["x", "y", "z"]].to_numpy())
         ties = rng.choice([-2.5, -1.5, -0.5, 0.5, 1.5, 2.5, 0.0, 0.49999999999999994, np.nextafter(0.5, 1), np.nextafter(0.5, 0),
-                           np.nextafter(-0.5, -1), np.nextafter(-0.5, 0), 1.0, -1.0], size=(n, 3))
+                           np.nextafter(-0.5, -1), np.nextafter(-0.5, 0), 1.0, -1.0,
+                           # 1e-9 .. 5e-7 on either side of a tie: rounding through a 6-decimal text or float32 turns them into ties
+                           0.5 - 1e-9, 0.5 - 3e-8, 0.5 - 1e-7, 0.5 - 3e-7, 0.5 - 4.9e-7, -0.5 + 1e-9, -0.5 + 1e-7, -0.5 + 3e-7, -0.5 + 4.9e-7,
+                           0.5 + 1e-9, 0.5 + 3e-7, -0.5 - 1e-9, -0.5 - 3e-7, 1.5 - 3e-7, -1.5 + 3e-7, 2.5 - 1e-7], size=(n, 3))
         neg = rng.random((n, 3)) < 0.3
         base = np.where(neg, -base, base)
         df[["x", "y", "z"]] = base
         df[["shift_x", "shift_y", "shift_z"]] = ties
+    if cls == "big_adjacent_tomos" or rng.random() < 0.1:
+        # neighbouring tomogram numbers that np.isclose (rtol 1e-5), float32 or %g would merge: 100000/100001/..., 2**24 + j, ...
+        old_ids = sorted(set(df["tomo_id"]))
+        base_id = float(rng.choice([100000.0, 123456.0, 999999.0, 2.0 ** 24, 2.0 ** 24 + 1, 1e7, 2.0 ** 31]))
+        remap = {t: base_id + j for j, t in enumerate(old_ids)}
+        df["tomo_id"] = df["tomo_id"].map(remap).astype(float)
     tomos = sorted(set(df["tomo_id"]))
     extra_t = [float(t) for t in rng.choice(np.arange(100, 120), 2, replace=False)]
     dim_rows = [[t] + [float(v) for v in rng.integers(50, 600, 3)] for t in tomos + extra_t]
@@ -283,6 +297,15 @@ def gen(ctx, i, cls):
     elif cls in ("multi_tomo_flip", "single_dim_flip", "one_row_n4"):
         ops = [rand_op() for _ in range(nops - 1)]
         ops.insert(int(rng.integers(0, len(ops) + 1)), rand_op("flip"))
+    elif cls == "big_adjacent_tomos":
+        f = rand_op("flip")
+        f["fmt"] = str(rng.choice(["array_n4", "frame_n4", "file_n4"]))
+        ops = [rand_op() for _ in range(int(rng.integers(0, 3)))] + [f] + ([dict(f)] if rng.random() < 0.5 else [])
+    elif cls == "block_sizes":
+        # every row-wise operation at every block-boundary count: the shift first (the slowest, most tempting to vectorise in blocks)
+        ops = [rand_op("shift"), rand_op(str(rng.choice(["update", "rot", "flip", "scale"])))]
+        if n < 1100:
+            ops.append(rand_op(str(rng.choice(["shift", "update", "rot", "flip"]))))
     else:
         ops = [rand_op() for _ in range(nops)]
     summ = {"n": n, "tomos": len(tomos), "ops": [{k: (v if k != "Q" else np.round(np.array(v), 3).tolist()) for k, v in o.items()} for o in ops],
@@ -344,9 +367,9 @@ def _make_dims(ctx, case, op, k):
         return pd.DataFrame(rows.copy())
     p = os.path.join(ctx.scratch, "dims_%d_%d.txt" % (case["i"], k))
     if fmt == "file_n4":
-        np.savetxt(p, rows, fmt="%g")
+        np.savetxt(p, rows, fmt="%.17g")
     else:
-        np.savetxt(p, np.array([op["single"]]), fmt="%g")
+        np.savetxt(p, np.array([op["single"]]), fmt="%.17g")
     return p
 
 
